@@ -17,6 +17,8 @@ THEOREMS = [
     "SleapVerif.C17.toposort_fuel_suffices",
     "SleapVerif.C17.toposort_sound_nodup",
     "SleapVerif.C17.isArbo_implies_arbo",
+    "SleapVerif.C17.child_before_parent_drops_parent",
+    "SleapVerif.C17.parent_first_needed",
 ]
 
 
@@ -176,6 +178,47 @@ class Impl:
             pg.assign_connections_to_instances = orig
         return used[0], int(inst.shape[0]), int(np.isnan(inst).any(axis=-1).sum())
 
+    def grouping_partial(self, scorer, re_edges, present, match_perm):
+        """group_instances_sample on a frame with INCOMPLETE animals: animal a has a peak for node c iff
+        c in present[a]; an edge (u, v) is matched for a iff both ends are present (score 1).  Returns the
+        instances as a sorted list of rows, a row = tuple over nodes of the animal the peak belongs to (None = NaN)."""
+        np, pg = self.np, self.pg
+        n = scorer.n_nodes
+        idx = {}  # (node, animal) -> peak index within the node's channel
+        peaks, chan = [], []
+        for c in range(n):
+            k = 0
+            for a, pr in enumerate(present):
+                if c in pr:
+                    idx[(c, a)] = k
+                    k += 1
+                    peaks.append([10.0 * c + a, 7.0 * a + 1.0])
+                    chan.append(c)
+        matches = [(k, idx[(u, a)], idx[(v, a)]) for k, (u, v) in enumerate(re_edges)
+                   for a, pr in enumerate(present) if u in pr and v in pr]
+        matches = [matches[i] for i in match_perm if i < len(matches)] if match_perm else matches
+        peaks = np.array(peaks, dtype="float32").reshape(-1, 2)
+        vals = np.ones(len(peaks), dtype="float32")
+        chan = np.array(chan, dtype="int64")
+        m_edge = np.array([m[0] for m in matches], dtype="int64")
+        m_src = np.array([m[1] for m in matches], dtype="int64")
+        m_dst = np.array([m[2] for m in matches], dtype="int64")
+        m_score = np.ones(len(matches), dtype="float32")
+        inst, _, _ = pg.group_instances_sample(peaks, vals, chan, m_edge, m_src, m_dst, m_score, n,
+                                               scorer.sorted_edge_inds, scorer.edge_types, 0, 0.25)
+        rows = []
+        for r in np.asarray(inst):
+            row = []
+            for c in range(n):
+                if np.isnan(r[c]).any():
+                    row.append(None)
+                else:
+                    a = int(round(float(r[c][0]) - 10.0 * c))
+                    ok = (c, a) in idx and float(r[c][0]) == 10.0 * c + a and float(r[c][1]) == 7.0 * a + 1.0
+                    row.append(a if ok else ("?", float(r[c][0]), float(r[c][1])))
+            rows.append(tuple(row))
+        return sorted(rows, key=repr)
+
     def grouping_batch(self, scorer, n_edges, n_samples):
         """Same through the batch entry point PAFScorer.group_instances → group_instances_batch: every
         sample (one complete animal each) must be grouped in the model's order and come out whole."""
@@ -202,8 +245,41 @@ class Impl:
         return used, per_sample
 
 
+def expected_partial(re_edges, n_nodes, present):
+    """Independent oracle for incomplete animals: the instances are the connected components (with at
+    least one matched edge) of each animal's detected part of the skeleton — no detected body part that
+    is linked to another by a matched connection may be left out or put elsewhere."""
+    rows = []
+    for a, pr in enumerate(present):
+        comp = {c: c for c in pr}
+
+        def find(x):
+            while comp[x] != x:
+                x = comp[x]
+            return x
+
+        linked = set()
+        for u, v in re_edges:
+            if u in pr and v in pr:
+                comp[find(u)] = find(v)
+                linked |= {u, v}
+        groups = {}
+        for c in linked:
+            groups.setdefault(find(c), set()).add(c)
+        for g in groups.values():
+            rows.append(tuple(a if c in g else None for c in range(n_nodes)))
+    return sorted(rows, key=repr)
+
+
 def model_of(edge_lists):
     return run_driver("C17.lean", ["toposort " + lst(edges, lambda e: f"{e[0]} {e[1]}") for edges in edge_lists])
+
+
+def _deeper_more(re_edges, present):
+    """Is there an edge with strictly more matched connections than the edge into its source?"""
+    cnt = {e: sum(1 for pr in present if e[0] in pr and e[1] in pr) for e in re_edges}
+    into = {v: (u, v) for u, v in re_edges}
+    return any(e[0] in into and cnt[e] > cnt[into[e[0]]] for e in re_edges)
 
 
 def is_tree_kind(kind):
@@ -216,8 +292,24 @@ def plan_extras(rng, idx, edges):
     order = nodes[:]
     if rng.random() < 0.5:
         rng.shuffle(order)
+    # incomplete animals (positions in `order`, i.e. the scorer's node indices): each body part of each
+    # animal undetected with probability 0.3; one animal in three loses its root part for certain
+    n = len(order)
+    re_edges = [(order.index(u), order.index(v)) for u, v in edges]
+    root = ({u for u, _ in re_edges} - {v for _, v in re_edges}).pop() if re_edges else 0
+    present = []
+    for a in range(1 + rng.randrange(3)):
+        pr = [c for c in range(n) if rng.random() >= 0.3]
+        if rng.random() < 0.34 and root in pr:
+            pr.remove(root)
+        present.append(pr)
+    n_matches = sum(1 for u, v in re_edges for pr in present if u in pr and v in pr)
+    perm = list(range(n_matches))
+    if rng.random() < 0.5:
+        rng.shuffle(perm)
     return {"names_order": order, "via_config": rng.random() < 0.5,
-            "animals": 1 + rng.randrange(3), "batch": rng.choice([0, 2, 3, 4])}
+            "animals": 1 + rng.randrange(3), "batch": rng.choice([0, 2, 3, 4]),
+            "present": present, "match_perm": perm}
 
 
 def check_case(chk: Check, impl: Impl, kind, edges, m, extras, m_re=None):
@@ -261,6 +353,16 @@ def check_case(chk: Check, impl: Impl, kind, edges, m, extras, m_re=None):
         if n_inst != extras["animals"] or n_nan != 0:
             chk.fail(f"body parts left ungrouped: {extras['animals']} complete animals grouped into {n_inst} instances "
                      f"with {n_nan} missing nodes", case, {"order_used": used})
+    if extras.get("present") is not None:
+        present = [set(pr) for pr in extras["present"]]
+        gp = call(impl.grouping_partial, scorer, re_edges, present, extras.get("match_perm"))
+        want = expected_partial(re_edges, scorer.n_nodes, present)
+        if gp[0] == "raise":
+            chk.fail(f"grouping raised on incomplete animals of a tree skeleton: {gp[1:]}", case, gp)
+        elif gp[1] != want:
+            chk.fail("body parts left ungrouped / wrongly grouped with incomplete animals: instances (animal per node, "
+                     f"None = missing) {gp[1]}, expected the connected groups of matched parts {want}", case,
+                     {"instances": [list(map(str, r)) for r in gp[1]], "expected": [list(map(str, r)) for r in want]})
     nb = extras["batch"]
     if nb:
         gb = call(impl.grouping_batch, scorer, len(edges), nb)
@@ -338,7 +440,8 @@ def main(chk: Check):
         pl = plans.get(idx)
         tags = [kind.rstrip("0123456789")]
         if pl:
-            tags += [f"batch{pl['batch']}", f"animals{pl['animals']}", "from_config" if pl["via_config"] else "ctor",
+            tags += [f"batch{pl['batch']}", f"animals{pl['animals']}", f"incomplete_animals{len(pl['present'])}",
+                 "deeper_edge_has_more_matches" if _deeper_more(re_lists[idx], pl["present"]) else "match_counts_monotone", "from_config" if pl["via_config"] else "ctor",
                      "names_shuffled" if pl["names_order"] != sorted(pl["names_order"]) else "names_sorted"]
         i = check_case(chk, impl, kind, edges, m, pl, model_re.get(idx))
         chk.case((kind.rstrip("0123456789"), tuple(edges)) if edges else None,
@@ -355,7 +458,8 @@ def replay(chk: Check, payload):
     kind = case.get("kind", "replay")
     nodes = sorted({x for e in edges for x in e})
     plans = [case["extras"]] if case.get("extras") else [
-        {"names_order": nodes, "via_config": v, "animals": a, "batch": b} for v, a, b in [(False, 1, 2), (True, 2, 3), (False, 3, 4)]]
+        {"names_order": nodes, "via_config": v, "animals": a, "batch": b, "present": None, "match_perm": None}
+        for v, a, b in [(False, 1, 2), (True, 2, 3), (False, 3, 4)]]
     m = model_of([edges])[0]
     for pl in plans:
         i = check_case(chk, impl, kind, edges, m, pl)
@@ -366,7 +470,7 @@ def replay(chk: Check, payload):
 if __name__ == "__main__":
     chk = Check(
         "C17", module="SleapVerif.Props.C17", theorems=THEOREMS,
-        build_targets=["SleapVerif.Model.Toposort", "SleapVerif.Model.Proto"],
+        build_targets=["SleapVerif.Model.Toposort", "SleapVerif.Model.Grouping", "SleapVerif.Model.Proto"],
         trusted=[
             "Lean 4.33 kernel; axioms ⊆ {propext, Classical.choice, Quot.sound} (audited per run)",
             "hand-written model Toposort.lean of toposort_edges; tied to /repo by exact comparison on the explored listings only",
@@ -376,8 +480,10 @@ if __name__ == "__main__":
              "thorough (933k listings at 6 nodes); random shapes path/star/bushy/uniform up to 20 (40) nodes with random "
              "labels and listings; malformed digraphs (forest, DAG, cycle, no root, self-loop, reversed edge, empty); for a "
              "sample of tree listings the glue is observed too: PAFScorer via constructor / from_config with sorted or "
-             "shuffled part_names, order used by group_instances_sample (1-3 animals) and by group_instances_batch "
-             "(2-4 samples); distinct = distinct (kind, edge listing); trivial = empty listing",
+             "shuffled part_names, order used by group_instances_sample (1-3 complete animals) and by group_instances_batch "
+             "(2-4 samples), and group_instances_sample on 1-3 INCOMPLETE animals (each part undetected w.p. 0.3, root part "
+             "removed in a third of the animals, matches in listing or shuffled order) against the connected groups of "
+             "matched parts; distinct = distinct (kind, edge listing); trivial = empty listing",
         assumptions=["duplicate edges in a listing are outside the model (DiGraph merges them); generator never emits them"],
     )
     run_check(chk, main, replay)
